@@ -261,6 +261,7 @@ def quiet_env() -> None:
     os.environ.setdefault("PYTHONHASHSEED", "0")
     os.environ.setdefault("TF_ENABLE_ONEDNN_OPTS", "0")
     os.environ.setdefault("TQDM_DISABLE", "1")
+    os.environ.setdefault("PYTHONWARNINGS", "ignore")
 
 
 def _silence_tqdm() -> None:
@@ -286,6 +287,8 @@ def _worker_init(paths: list[str]) -> None:
         saved = os.dup(2)
         os.dup2(devnull, 2)
         try:
+            from vf import rustbuild
+            rustbuild.load_ext()
             import sedpack.io  # noqa: F401  pylint: disable=unused-import
             _silence_tqdm()
         finally:
@@ -317,6 +320,8 @@ def import_sedpack_quietly():
     saved = os.dup(2)
     os.dup2(devnull, 2)
     try:
+        from vf import rustbuild
+        rustbuild.load_ext()
         import sedpack.io  # noqa: F401
         _silence_tqdm()
     finally:
